@@ -188,6 +188,29 @@ def run(pid, tier, replay_file=None):
             if k not in ("ok", "reject"):
                 add_event(si, "np", '[id |-> @ID@, p |-> "C10", kind |-> %s]' % codec.tla_str(k))
 
+    # ---------------- C01: independent random documents (code -> spec, no prediction involved)
+    rand_info = {}
+    if pid == "C01" and not replay_file:
+        import randdocs
+        n_docs = 150 if tier == "quick" else 2500
+        rdocs = randdocs.documents(common.SEED + 11, n_docs)
+        robs = drive.pmap(_rand_obs, rdocs, chunksize=16)
+        n_ev = 0
+        for di, (d, ro) in enumerate(zip(rdocs, robs)):
+            if ro is None:
+                continue
+            try:
+                dt = codec.json_to_tla_schema(d)
+            except ValueError:
+                continue
+            for vi, k in enumerate(ro):
+                eid = len(ev_index) + 1
+                ev_index[eid] = (("rand", d), vi)
+                events.append((eid, '[id |-> %d, p |-> "C01", doc |-> %s, v |-> %s, kind |-> %s]'
+                               % (eid, dt, tlajson_to_tla(tagged_values[vi]), codec.tla_str(k))))
+                n_ev += 1
+        rand_info = dict(random_documents=len(rdocs), verdicts_adjudicated=n_ev, depth=3)
+
     # ---------------- stage 3: adjudicate drift against the reference predicates
     adj = dict(events=0, tlc_states=0)
     if events:
@@ -197,6 +220,12 @@ def run(pid, tier, replay_file=None):
             raise MachineryError(f"cannot encode an observation for TLC: {exc}")
         for eid in sorted(rejected):
             si, tag = ev_index[eid]
+            if isinstance(si, tuple):       # random document
+                d = si[1]
+                rep.violation(("C01-random", ",".join(sorted(d))),
+                              f"observation rejected by R_C01: schema {json.dumps(d)[:260]} value "
+                              f"{json.dumps(pyvals[tag])[:80]}", dict(schema=d, value_index=tag))
+                continue
             st, ob = states[si], observations[si]
             if isinstance(tag, int):
                 o = ob["calls"][tag]
@@ -266,7 +295,7 @@ def run(pid, tier, replay_file=None):
         bfs_exhaustive_within_bound=True,
         tlc=dict(bfs=bfs, seeds=seed, sim=sim, trace_validation=adj),
         action_witnesses=witnesses,
-        drift=dict(drift),
+        drift=dict(drift), independent_random_documents=rand_info,
         drift_events_adjudicated=min(len(ev_index), MAX_EVENTS),
         drift_events_total=len(ev_index),
         model_switches="see spec/Elements.tla, spec/Parser.tla (DeepBool, PlaceholderBySource, ...)",
@@ -284,6 +313,15 @@ def run(pid, tier, replay_file=None):
     return rep.finish(coverage, time.time() - t0,
                       assumptions=["A1 bounded exhaustiveness", "A3 regex family",
                                    "A4 binary-exact rationals", "A7 Draft6.tla is the reference"])
+
+
+def _rand_obs(doc):
+    """verdict kinds of a random document on the value universe (None when it does not parse)"""
+    _, pyvals = df.values()
+    kind, el = drive.parse_labelled(doc)
+    if kind != "ok":
+        return None
+    return [drive.call(el, v)[0] for v in pyvals]
 
 
 def _out(o):
